@@ -10,40 +10,78 @@ import itertools
 import json
 import os
 import subprocess
+import sys
 from fractions import Fraction as F
 
 import fw
 
-LEAN_PROPS = ["NmlVerif.Props.C13"]
+LEAN_PROPS = ["NmlVerif.Props.C13", "NmlVerif.Props.C13SP", "NmlVerif.Props.C13Hist", "NmlVerif.Props.C13Gen",
+              "NmlVerif.Props.C13Rename", "NmlVerif.Props.C13Geom", "NmlVerif.Props.C13LocFix"]
 LEVEL = "proof"
 RULE = ("cells built from a rooted tree shape (exhaustive stream: every unordered rooted tree shape with <= 6 "
         "segments; random stream: random recursive trees up to 200 segments, chains, stars, caterpillars) x an id "
         "numbering / file order (identity; reversed = root has the largest id, children precede parents in the "
         "file; scattered ids in a scrambled file order) x per non-root segment {proximal present, absent} x "
-        "fraction_along in {0, 1/4, 1/2, 1}; axis-aligned dyadic geometry; queries: every method of the property "
-        "with root / non-root / default sources, several cut-off distances, several segment-group selections. "
-        "A case is non-trivial when it has >= 3 segments, at least one segment without proximal point and at least "
-        "one fraction_along strictly between 0 and 1; distinct = distinct canonical (segments, queries) JSON")
+        "fraction_along in {0, 1/4, 1/2, 1}; dyadic geometry with exactly representable lengths: half of the segment "
+        "vectors axis-aligned, half oblique (Pythagorean quadruples scaled by powers of two); queries: every method of "
+        "the property with root / non-root / default sources, several cut-off distances, several segment-group "
+        "selections and every call shape of get_ordered_segments_in_groups. History stream: 3-9 operations on ONE cell "
+        "object (calls of the eight cached methods with root / non-root / default sources, the same call again, "
+        "edits of the morphology -- append / remove a leaf, change a fraction, re-attach a subtree --, the documented "
+        "refresh or half of it); after every operation the result and both cache attributes are compared with the "
+        "model; the definition is demanded of every answer that the documented cache protocol says is up to date "
+        "(always on a never-edited cell). A case is non-trivial when it has >= 3 segments, at least one segment "
+        "without proximal point and at least one fraction_along strictly between 0 and 1 (every history counts); "
+        "distinct = distinct canonical JSON")
 TRUST = [
-    "hand-written model of the Cell tree metrics (Model/Morph.lean), tied to neuroml/nml/nml.py by correspondence only",
-    "networkx single_source_dijkstra / dijkstra_path_length = shortest path; on a forest that is the unique chain of "
-    "incoming edges (modelled as such, sampled by the correspondence on every case)",
+    "hand-written model of get_ordered_segments_in_groups / get_segment_location_info (Model/Morph.lean), tied by "
+    "correspondence and PINNED to the source text by an AST hash (py2lean_morph.PINS): a changed source is a gap",
+    "translator translators/py2lean_morph.py (validated, not verified): the eight graph methods are regenerated from "
+    "helper_methods.py AND nml.py on every run and proved equal to the hand model (Props/C13Gen.lean); its vocabulary "
+    "Model/MorphBase.lean says what dict operations, nx.DiGraph.add_edge / add_nodes_from / out_degree / in_degree mean",
+    "networkx single_source_dijkstra / dijkstra_path_length = shortest path (modelled by an executable Bellman-Ford "
+    "recurrence on any weighted digraph, proved to be the minimum over walks and, on a forest, the unique chain; "
+    "sampled by the correspondence on every case, root / non-root sources, trees and forests); the cut-off variant "
+    "assumes non-negative edge weights; nx.add_edge on an existing (u, v) is not modelled (cannot occur for unique ids)",
     "CPython float arithmetic is exact on the generated dyadic inputs (checked: the exact-rational oracle would "
     "disagree otherwise); float division in get_segments_at_distance is compared as the correctly rounded quotient",
 ]
 ASSUMPTIONS = [
-    "theorems are parametric in the segment length function len : Nat -> Rat (the real length needs sqrt; C12 covers it); "
+    "theorems are parametric in the segment length function len : Nat -> Rat; Props/C13Geom.lean ties it to the point "
+    "coordinates (C12's translated get_segment_length over the reals returns exactly that rational) whenever the "
+    "Euclidean length is rational -- every generated geometry; irrational lengths stay a parameter (C12 covers sqrt); "
     "segments-at-distance additionally assumes len >= 0 and 0 <= fraction_along",
     "well-formed forest: unique ids, parents exist, acyclic, parentless segments carry a proximal point; exactly one "
     "parentless segment for the root / tips / distance-from-root clauses",
-    "caches (cell.adjacency_list, cell.cell_graph) are fresh: every case builds a new Cell; the stale-cache stream is "
-    "reported in the evidence, not asserted (documented as user-refreshed)",
+    "call histories: the property is demanded of every answer computed from caches that are up to date under the "
+    "documented protocol (never-edited cell: always; after an edit: after get_segment_adjacency_list() + get_graph()); "
+    "answers from out-of-date caches are documented API behaviour: compared with the model, not with the definition; "
+    "an exception inside the loop of get_extremeties is modelled as leaving the object as it was at loop entry",
     "segment groups used for get_ordered_segments_in_groups list their members directly (group inclusion is C14)",
     "get_segment_location_info is modelled without unbranched-section groups (they are C16)",
 ]
 
 FRACS = [F(0), F(1, 4), F(1, 2), F(1)]
 AXES = [(1, 0, 0), (0, 1, 0), (0, 0, 1), (-1, 0, 0), (0, -1, 0), (0, 0, -1)]
+# Pythagorean quadruples (a, b, c, n): a^2 + b^2 + c^2 = n^2; a segment vector k * (+-a, +-b, +-c) in any order with a
+# dyadic k has the exactly representable length k * n, and every float operation of the library on it is exact
+QUADS = [(3, 4, 0, 5), (1, 2, 2, 3), (2, 3, 6, 7), (1, 4, 8, 9), (4, 4, 7, 9), (2, 6, 9, 11), (6, 6, 7, 11), (3, 4, 12, 13)]
+QSCALE = [F(1, 4), F(1, 2), F(1), F(2), F(3, 4), F(1, 8)]
+
+
+def random_vector(rng):
+    """(dx, dy, dz) with an exactly representable Euclidean length; half axis-aligned, half oblique; 4 % zero"""
+    if rng.random() < 0.04:
+        return (F(0), F(0), F(0))
+    if rng.random() < 0.5:
+        L, ax = rng.choice(LENS), rng.choice(AXES)
+        return (L * ax[0], L * ax[1], L * ax[2])
+    a, b, c, _n = rng.choice(QUADS)
+    k = rng.choice(QSCALE)
+    v = [a, b, c]
+    rng.shuffle(v)
+    return tuple(k * x * rng.choice((1, -1)) for x in v)
+
 LENS = [F(1), F(2), F(3), F(1, 2), F(5, 4), F(4), F(3, 2), F(8)]
 DIAMS = [F(1), F(2), F(1, 2), F(3), F(3, 4)]
 SCATTER = [7, 3, 12, 0, 9, 5]
@@ -119,9 +157,8 @@ def build_case(par, numbering, opts, rng, queries=True):
             else:
                 ap = attach
         aprox[k] = ap
-        L = rng.choice(LENS) if rng.random() > 0.04 else F(0)
-        ax = rng.choice(AXES)
-        dist[k] = (ap[0] + L * ax[0], ap[1] + L * ax[1], ap[2] + L * ax[2], rng.choice(DIAMS))
+        vx, vy, vz = random_vector(rng)
+        dist[k] = (ap[0] + vx, ap[1] + vy, ap[2] + vz, rng.choice(DIAMS))
     segs = []
     for k in order:
         s = {"id": idof[k], "par": None, "prox": None, "dist": [sstr(c) for c in dist[k]]}
@@ -233,6 +270,8 @@ def run_real(case):
                             "prox": sorted([k, qstr(v)] for k, v in r[2][g].items()),
                             "dist": sorted([k, qstr(v)] for k, v in r[3][g].items())})
     out["ordered"] = ordered
+    # the other call shapes of the same method (a tenth of the cases of the exhaustive sweep, every other case)
+    out["variants"] = ordered_variants(cell, case, gids, r if gids else None) if case.get("variants", True) else []
     adj = note("adj", attempt(lambda: cell.get_segment_adjacency_list()))
     out["adj"] = None if adj is None else [[k, list(v)] for k, v in adj.items()]
     g = note("graph", attempt(lambda: cell.get_graph()))
@@ -275,6 +314,39 @@ def run_real(case):
                                                  qstr(r["distance_from_nearest_branching_point"])]])
     out["loc"] = loc
     return out, cell
+
+
+def ordered_variants(cell, case, gids, full):
+    """the other call shapes of get_ordered_segments_in_groups (a single id as a string, a subset of the groups, each
+    combination of the two include_* flags, check_parentage): every one must be the corresponding projection of the
+    full call; check_parentage must raise exactly when a non-first segment's parent is not an earlier member.
+    Returns a list of problems (strings)."""
+    bad = []
+    if not gids or full is None:
+        return bad
+    ids = lambda d: {k: [s.id for s in v] for k, v in d.items()}          # noqa: E731
+    f_ord, f_cum, f_pp, f_pd = ids(full[0]), full[1], full[2], full[3]
+    sub = gids[::2]
+    for sel in (gids[0], sub, [gids[-1]]):
+        keys = [sel] if isinstance(sel, str) else list(sel)
+        want = {k: f_ord[k] for k in keys}
+        r0 = attempt(lambda: cell.get_ordered_segments_in_groups(sel))
+        if is_exc(r0) or ids(r0) != want or list(r0.keys()) != keys:
+            bad.append("plain call on %r differs from the full call" % (sel,))
+        r1 = attempt(lambda: cell.get_ordered_segments_in_groups(sel, include_path_lengths=True))
+        if is_exc(r1) or len(r1) != 3 or ids(r1[0]) != want or r1[1] != {k: f_pp[k] for k in keys} or r1[2] != {k: f_pd[k] for k in keys}:
+            bad.append("include_path_lengths only on %r differs from the full call" % (sel,))
+        r2 = attempt(lambda: cell.get_ordered_segments_in_groups(sel, include_cumulative_lengths=True))
+        if is_exc(r2) or len(r2) != 2 or ids(r2[0]) != want or r2[1] != {k: f_cum[k] for k in keys}:
+            bad.append("include_cumulative_lengths only on %r differs from the full call" % (sel,))
+    par = {s["id"]: (None if s["par"] is None else s["par"][0]) for s in case["segs"]}
+    for g, gid in zip(case["groups"], gids):
+        o = f_ord[gid]
+        expect_raise = any(par[i] is None or par[i] not in o[:k] for k, i in enumerate(o) if i != o[0])
+        r3 = attempt(lambda: cell.get_ordered_segments_in_groups(gid, check_parentage=True))
+        if is_exc(r3) != expect_raise or (not is_exc(r3) and ids(r3) != {gid: o}):
+            bad.append("check_parentage on group %r: raised=%s expected=%s" % (g, is_exc(r3), expect_raise))
+    return bad
 
 
 # ------------------------------------------------------------------ model output canonicalisation
@@ -511,15 +583,17 @@ def eval_batch(cases, stream):
     lines = [json.dumps(c) for c in cases]
     rc, out = fw.run_driver("C13", lines, timeout=3000)
     if rc != 0 or len(out) != len(lines):
+        # the model is unavailable: the correspondence obligation is broken, the oracle still runs on the real code
         S["disagree"].append(("driver", "driver failed rc=%s (%d lines for %d cases)" % (rc, len(out), len(lines)),
                               "\n".join(out[-3:])[-600:], None))
-        return S
+        out = [None] * len(lines)
     for case, mo in zip(cases, out):
-        try:
-            m = canon_model(json.loads(mo))
-        except Exception as e:  # noqa
-            S["disagree"].append(("driver", case, "unparsable driver output: %r" % (e,), mo[:300]))
-            continue
+        m = None
+        if mo is not None:
+            try:
+                m = canon_model(json.loads(mo))
+            except Exception as e:  # noqa
+                S["disagree"].append(("driver", case, "unparsable driver output: %r" % (e,), mo[:300]))
         real, _cell = run_real(case)
         n = len(case["segs"])
         S["evals"] += 1
@@ -532,16 +606,23 @@ def eval_batch(cases, stream):
         if sum(1 for s in case["segs"] if s["par"] is None) > 1:
             count("forest(>1 root)")
         count("segments-without-proximal", sum(1 for s in case["segs"] if s["prox"] is None))
+        _r = Ref(case)
+        if any(sum(1 for k in range(3) if _r.actual_prox(i)[k] != _r.pt(_r.segs[i]["dist"])[k]) > 1 for i in _r.order):
+            count("oblique-geometry(some segment not axis-aligned)")
         # ---- correspondence
-        S["corr"] += 1
-        if m.get("res") != "ok":
-            S["disagree"].append(("model-domain", case, "real code ran", m))
-            continue
-        for k in COMPARED:
-            if real[k] != m[k]:
-                if len(S["disagree"]) < 5:
-                    S["disagree"].append(("morph-model:" + k, case, real[k], m[k]))
-                break
+        if m is not None:
+            S["corr"] += 1
+            if m.get("res") != "ok":
+                S["disagree"].append(("model-domain", case, "real code ran", m))
+            else:
+                for k in COMPARED:
+                    if real[k] != m[k]:
+                        if len(S["disagree"]) < 5:
+                            S["disagree"].append(("morph-model:" + k, case, real[k], m[k]))
+                        break
+        if real.get("variants"):
+            if len(S["disagree"]) < 5:
+                S["disagree"].append(("ordered-variants", case, real["variants"][:3], "projection of the full call"))
         # ---- full property on the real code
         for key, what, detail in oracle(case, real):
             count("fail:" + key)
@@ -607,17 +688,389 @@ def stale_cache_stream(ctx, rng, k):
     for _ in range(k):
         case = build_case([-1, 0, 1], "identity", [None, (True, F(1)), (True, F(1))], rng)
         cell = build_cell(case)
-        before = cell.get_extremeties()
-        seg = n.Segment(id=50, name="late", parent=n.SegmentParent(segments=2, fraction_along=1.0),
-                        distal=n.Point3DWithDiam(x=99, y=0, z=0, diameter=1))
-        cell.morphology.segments.append(seg)
-        after = cell.get_extremeties()
-        cell.get_segment_adjacency_list()
-        cell.get_graph()
-        refreshed = cell.get_extremeties()
+        try:
+            before = cell.get_extremeties()
+            seg = n.Segment(id=50, name="late", parent=n.SegmentParent(segments=2, fraction_along=1.0),
+                            distal=n.Point3DWithDiam(x=99, y=0, z=0, diameter=1))
+            cell.morphology.segments.append(seg)
+            after = cell.get_extremeties()
+            cell.get_segment_adjacency_list()
+            cell.get_graph()
+            refreshed = cell.get_extremeties()
+        except Exception:  # noqa  (reporting only: the history stream is the check)
+            continue
         if after == before and 50 in refreshed:
             stale += 1
     ctx.extra["stale_cache_observed"] = "%d/%d edits were invisible until get_segment_adjacency_list()+get_graph() were re-run (documented)" % (stale, k)
+
+
+
+# ------------------------------------------------------------------ call histories on ONE cell object (caches)
+def set_segments(cell, segs):
+    """edit the morphology in place: the cell object (and whatever it cached) stays"""
+    import neuroml as n
+    new = []
+    for s in segs:
+        seg = n.Segment(id=s["id"], name="s%d" % s["id"])
+        if s["par"] is not None:
+            seg.parent = n.SegmentParent(segments=s["par"][0], fraction_along=float(F(s["par"][1])))
+        if s["prox"] is not None:
+            x, y, z, d = [float(F(c)) for c in s["prox"]]
+            seg.proximal = n.Point3DWithDiam(x=x, y=y, z=z, diameter=d)
+        x, y, z, d = [float(F(c)) for c in s["dist"]]
+        seg.distal = n.Point3DWithDiam(x=x, y=y, z=z, diameter=d)
+        new.append(seg)
+    cell.morphology.segments[:] = new
+
+
+def graph_obs(g):
+    return {"nodes": list(g.nodes), "edges": sorted([u, v, qstr(d["weight"])] for u, v, d in g.edges(data=True))}
+
+
+def adj_obs(a):
+    return [[k, list(v)] for k, v in a.items()]
+
+
+def run_real_history(case):
+    """the operations of case["ops"] on ONE real Cell; per operation: result (None = raised), exception class, and the
+    two cache attributes of the object afterwards"""
+    cell = build_cell({"segs": case["segs"]})
+    steps = []
+    for op in case["ops"]:
+        k = op["op"]
+        src = op.get("src")
+        if k == "edit":
+            set_segments(cell, op["segs"])
+            r = None
+        elif k == "adj":
+            r = attempt(lambda: adj_obs(cell.get_segment_adjacency_list()))
+        elif k == "graph":
+            r = attempt(lambda: graph_obs(cell.get_graph()))
+        elif k == "dist":
+            r = attempt(lambda: qstr(cell.get_distance(op["dst"]) if src is None else cell.get_distance(op["dst"], source=src)))
+        elif k == "alld":
+            r = attempt(lambda: sorted([a, qstr(b)] for a, b in (
+                cell.get_all_distances_from_segment() if src is None else cell.get_all_distances_from_segment(src))[0].items()))
+        elif k == "atd":
+            d = float(F(op["d"]))
+            r = attempt(lambda: sorted([a, b] for a, b in (
+                cell.get_segments_at_distance(d) if src is None else cell.get_segments_at_distance(d, src)).items()))
+        elif k == "branch":
+            r = attempt(lambda: list(cell.get_branching_points()))
+        elif k == "root":
+            r = attempt(lambda: cell.get_morphology_root())
+        elif k == "tips":
+            r = attempt(lambda: [[a, qstr(b)] for a, b in cell.get_extremeties().items()])
+        else:
+            raise ValueError(k)
+        exc = None
+        if is_exc(r):
+            exc, r = r[1], None
+        a = getattr(cell, "adjacency_list", None)
+        g = getattr(cell, "cell_graph", None)
+        steps.append({"r": r, "exc": exc, "adj": None if a is None else adj_obs(a), "g": None if g is None else graph_obs(g)})
+    return steps
+
+
+def canon_graph(g):
+    return None if g is None else {"nodes": g["nodes"], "edges": sorted([u, v, norm_q(w)] for u, v, w in g["edges"])}
+
+
+def canon_model_history(case, m):
+    if m.get("res") != "ok":
+        return m
+    steps = []
+    for op, st in zip(case["ops"], m["steps"]):
+        k, r = op["op"], st["r"]
+        if r is not None:
+            if k == "graph":
+                r = canon_graph(r)
+            elif k == "dist":
+                r = norm_q(r)
+            elif k == "alld":
+                r = sorted([a, norm_q(b)] for a, b in r)
+            elif k == "atd":
+                r = sorted([a, float(F(b))] for a, b in r)
+            elif k == "tips":
+                r = [[a, norm_q(b)] for a, b in r]
+        steps.append({"r": r, "adj": st["adj"], "g": canon_graph(st["g"])})
+    return {"res": "ok", "steps": steps}
+
+
+def oracle_history(case, steps):
+    """What the property demands of a call history (independent of the Lean model).
+    The documented cache protocol: `adjacency_list` is recomputed by every get_segment_adjacency_list(); `cell_graph`
+    is rebuilt by every get_graph() from the stored adjacency list; after editing the morphology the user refreshes
+    with get_segment_adjacency_list() then get_graph(). So: a result is demanded to equal the definition on the CURRENT
+    morphology whenever everything it was computed from is up to date under that protocol (in particular: always on
+    a cell that was never edited -- whatever was called before, however often). Results computed from a cache that
+    the protocol says is out of date are only compared with the model."""
+    fails = []
+    segs = case["segs"]
+    edits = 0
+    adj_epoch = graph_epoch = None          # edit count at which each cache was last brought up to date (None = absent)
+    for idx, (op, st) in enumerate(zip(case["ops"], steps)):
+        k = op["op"]
+        if k == "edit":
+            segs = op["segs"]
+            edits += 1
+            continue
+        ref = Ref({"segs": segs})
+        roots = ref.roots()
+        tree = len(roots) == 1
+        # which epoch does this call's answer derive from?
+        if k == "adj":
+            adj_epoch = edits
+            clean = True
+        elif k == "graph":
+            if adj_epoch is None:
+                adj_epoch = edits
+            graph_epoch = adj_epoch if st["g"] is not None or st["exc"] is None else graph_epoch
+            clean = adj_epoch == edits
+        elif k == "root" and 0 in ref.segs and ref.segs[0]["par"] is None:
+            clean = True                                         # id-0 shortcut: no cache involved
+        else:
+            if graph_epoch is None:
+                if adj_epoch is None:
+                    adj_epoch = edits
+                graph_epoch = adj_epoch
+            clean = graph_epoch == edits
+        if not clean:
+            continue
+
+        def bad(what, text, detail):
+            fails.append(("C13:history:" + what, text, {"step": idx, "op": op, "got": st["r"], "exc": st["exc"], "detail": detail}))
+        src = op.get("src", None)
+        src = 0 if src is None and k in ("dist", "alld", "atd") else src
+        if k == "adj":
+            exp = {p: sorted(ref.children(p)) for p in ref.order if ref.children(p)}
+            got = None if st["r"] is None else {a: sorted(b) for a, b in st["r"]}
+            if got != exp:
+                bad("adjacency", "adjacency list differs from the parent relation of the current morphology", exp)
+        elif k == "graph":
+            exp_e = sorted([ref.parent(i)[0], i, str(ref.parent(i)[1] * ref.length(ref.parent(i)[0]))] for i in ref.order if ref.parent(i))
+            if st["r"] is None or st["r"]["edges"] != exp_e or sorted(st["r"]["nodes"]) != sorted(ref.order):
+                bad("graph", "graph is not the parent relation with weight parent length x fraction_along", exp_e)
+        elif k == "branch":
+            exp = sorted(p for p in ref.order if len(ref.children(p)) >= 2)
+            if st["r"] is None or sorted(st["r"]) != exp:
+                bad("branch-points", "branching points differ from segments with >= 2 children", exp)
+        elif k == "root":
+            if tree and st["r"] != roots[0]:
+                bad("root", "get_morphology_root is not the segment without parent", roots[0])
+        elif k == "tips":
+            if tree:
+                exp = sorted([i, str(ref.to_prox(i))] for i in ref.order if not ref.children(i))
+                if st["r"] is None or sorted(st["r"]) != exp:
+                    bad("tips", "extremities / distances from the root differ from the definition", exp)
+        elif k == "dist":
+            dst = op["dst"]
+            if src in ref.segs and dst in ref.segs:
+                # src above dst: path length between their proximal ends; otherwise no path
+                anc, cur = False, dst
+                while True:
+                    if cur == src:
+                        anc = True
+                        break
+                    par = ref.parent(cur)
+                    if par is None:
+                        break
+                    cur = par[0]
+                if anc:
+                    exp = str(ref.to_prox(dst) - ref.to_prox(src))
+                    if st["r"] != exp:
+                        bad("distance", "get_distance differs from the path length by definition", exp)
+                elif st["r"] is not None:
+                    bad("distance", "get_distance returns a value although the source is not above the destination", None)
+        elif k == "alld":
+            if tree and src == roots[0]:
+                exp = sorted([i, str(ref.to_prox(i))] for i in ref.order)
+                if st["r"] != exp:
+                    bad("all-distances", "distances from the root differ from the path lengths by definition", exp)
+        elif k == "atd":
+            if tree and src == roots[0] and F(op["d"]) >= 0:
+                exp = sorted([i, float(q)] for i, q in ref.at_distance(F(op["d"])).items())
+                if st["r"] != exp:
+                    bad("at-distance", "segments at distance d differ from the definition", exp)
+    return fails
+
+
+def eval_hist_batch(cases):
+    import hashlib
+    S = {"evals": 0, "corr": 0, "hashes": [], "counts": {}, "disagree": [], "fails": [], "keys": {}}
+
+    def count(k, by=1):
+        S["counts"][k] = S["counts"].get(k, 0) + by
+    lines = [json.dumps(c) for c in cases]
+    rc, out = fw.run_driver("C13", lines, timeout=3000)
+    if rc != 0 or len(out) != len(lines):
+        S["disagree"].append(("driver", "driver failed rc=%s (%d lines for %d cases)" % (rc, len(out), len(lines)),
+                              "\n".join(out[-3:])[-600:], None))
+        out = [None] * len(lines)
+    for case, mo in zip(cases, out):
+        m = None
+        if mo is not None:
+            try:
+                m = canon_model_history(case, json.loads(mo))
+            except Exception as e:  # noqa
+                S["disagree"].append(("driver", case, "unparsable driver output: %r" % (e,), mo[:300]))
+        steps = run_real_history(case)
+        S["evals"] += 1
+        S["hashes"].append(hashlib.sha1(json.dumps(case, sort_keys=True).encode()).hexdigest())
+        count("stream:history")
+        ops = [o["op"] for o in case["ops"]]
+        count("history:ops", len(ops))
+        count("history:edits", ops.count("edit"))
+        count("history:calls-that-raised", sum(1 for st in steps if st["exc"]))
+        for a, b in zip(case["ops"], case["ops"][1:]):
+            if a == b and a["op"] != "edit":
+                count("history:same-call-twice-in-a-row")
+        if "edit" in ops and any(o != "edit" for o in ops[:ops.index("edit")]) and any(o != "edit" for o in ops[ops.index("edit"):]):
+            count("history:call-edit-call")
+        if m is not None:
+            S["corr"] += 1
+            if m.get("res") != "ok":
+                S["disagree"].append(("model-domain", case, "real code ran", m))
+            else:
+                for i, (a, b) in enumerate(zip(steps, m["steps"])):
+                    ra = {"r": a["r"], "adj": a["adj"], "g": a["g"]}
+                    if ra != b:
+                        if len(S["disagree"]) < 5:
+                            S["disagree"].append(("morph-model:history", {"case": case, "step": i}, ra, b))
+                        break
+        for key, what, detail in oracle_history(case, steps):
+            count("fail:" + key)
+            S["keys"][key] = S["keys"].get(key, 0) + 1
+            if S["keys"][key] <= 2:
+                S["fails"].append((key, what, {"case": case, "detail": detail}))
+    return S
+
+
+def edit_segments(rng, segs):
+    """one well-formedness-preserving edit of a segment list (geometry stays exactly representable); returns new list"""
+    segs = json.loads(json.dumps(segs))
+    ids = [s["id"] for s in segs]
+    by = {s["id"]: s for s in segs}
+    children = {}
+    for s in segs:
+        if s["par"] is not None:
+            children.setdefault(s["par"][0], []).append(s["id"])
+    kind = rng.random()
+    leaves = [i for i in ids if i not in children and by[i]["par"] is not None]
+    if kind < 0.35 or len(segs) < 2:
+        # append a new leaf (explicit proximal, so its geometry does not depend on the parent's)
+        p = rng.choice(ids)
+        new_id = max(ids) + rng.choice([1, 1, 2, 5]) if rng.random() < 0.8 or 0 in ids else 0
+        px = (F(rng.randint(-8, 8)), F(rng.randint(-8, 8), 2), F(rng.randint(-4, 4)), rng.choice(DIAMS))
+        v = random_vector(rng)
+        s = {"id": new_id, "par": [p, sstr(rng.choice(FRACS))], "prox": [sstr(c) for c in px],
+             "dist": [sstr(px[0] + v[0]), sstr(px[1] + v[1]), sstr(px[2] + v[2]), sstr(rng.choice(DIAMS))]}
+        segs.insert(rng.randint(0, len(segs)), s)
+    elif kind < 0.55 and leaves:
+        i = rng.choice(leaves)
+        segs = [s for s in segs if s["id"] != i]                   # remove a leaf
+    elif kind < 0.8:
+        # change the attachment fraction of a segment that has its own proximal point
+        cand = [s for s in segs if s["par"] is not None and s["prox"] is not None]
+        if cand:
+            c = rng.choice(cand)
+            c["par"][1] = sstr(rng.choice([f for f in FRACS if sstr(f) != c["par"][1]]))
+    else:
+        # re-attach a segment with its own proximal point somewhere outside its subtree
+        cand = [s for s in segs if s["par"] is not None and s["prox"] is not None]
+        if cand:
+            c = rng.choice(cand)
+            sub, todo = {c["id"]}, [c["id"]]
+            while todo:
+                for ch in children.get(todo.pop(), []):
+                    sub.add(ch)
+                    todo.append(ch)
+            outside = [i for i in ids if i not in sub]
+            if outside:
+                c["par"][0] = rng.choice(outside)
+    return segs
+
+
+def random_call(rng, segs):
+    ids = [s["id"] for s in segs]
+    roots = [s["id"] for s in segs if s["par"] is None]
+    root = roots[0]
+    k = rng.choice(["adj", "graph", "dist", "dist", "alld", "atd", "branch", "root", "tips", "tips"])
+    op = {"op": k}
+    if k == "dist":
+        op["dst"] = rng.choice(ids)
+        r = rng.random()
+        if r < 0.6:
+            op["src"] = root
+        elif r < 0.85:
+            op["src"] = rng.choice(ids)
+    elif k == "alld":
+        if rng.random() < 0.8:
+            op["src"] = root if rng.random() < 0.8 else rng.choice(ids)
+    elif k == "atd":
+        op["d"] = sstr(F(rng.randint(0, 40), 4))
+        if rng.random() < 0.85:
+            op["src"] = root if rng.random() < 0.85 else rng.choice(ids)
+    return op
+
+
+def history_case(rng):
+    n = rng.choice([1, 2, 3, 3, 4, 5, 6, 8, 12])
+    par = random_tree(rng, n)
+    opts = [None] + [(rng.random() < 0.5, rng.choice(FRACS)) for _ in range(n - 1)]
+    base = build_case(par, rng.choice(["identity", "reversed", "random", "scattered"]), opts, rng, queries=False)
+    segs = base["segs"]
+    ops = []
+    shape = rng.random()
+    cur = segs
+    for _ in range(rng.randint(3, 9)):
+        r = rng.random()
+        if shape < 0.3:
+            pe = 0.0                                   # never edited: every answer is demanded to be the definition
+        elif shape < 0.65:
+            pe = 0.2
+        else:
+            pe = 0.35
+        if r < pe:
+            cur = edit_segments(rng, cur)
+            ops.append({"op": "edit", "segs": cur})
+            if rng.random() < 0.5:                     # the documented refresh, sometimes only half of it
+                ops.append({"op": "adj"})
+                if rng.random() < 0.8:
+                    ops.append({"op": "graph"})
+        elif r < pe + 0.15 and ops and ops[-1]["op"] != "edit":
+            ops.append(json.loads(json.dumps(ops[-1])))          # the same call again
+        else:
+            ops.append(random_call(rng, cur))
+    return {"segs": segs, "ops": ops}
+
+
+def _hist_worker(job):
+    import random
+    k, seed = job
+    rng = random.Random(seed)
+    return eval_hist_batch([history_case(rng) for _ in range(k)])
+
+
+HIST_CORPUS = [
+    # unedited cell, root id 3: tips, then distance with the default source (raises: no path from 0), then the same
+    # distance from the root twice, root, graph, adjacency, graph -- every answer must be the definition
+    {"segs": [{"id": 3, "par": None, "prox": ["0", "0", "0", "1"], "dist": ["4", "0", "0", "1"]},
+              {"id": 2, "par": [3, "1"], "prox": None, "dist": ["8", "3", "0", "1"]},
+              {"id": 0, "par": [2, "1/2"], "prox": None, "dist": ["6", "2", "0", "2"]}],
+     "ops": [{"op": "tips"}, {"op": "dist", "dst": 2}, {"op": "dist", "dst": 0, "src": 3}, {"op": "dist", "dst": 0, "src": 3},
+             {"op": "root"}, {"op": "branch"}, {"op": "graph"}, {"op": "adj"}, {"op": "graph"}, {"op": "tips"},
+             {"op": "atd", "d": "5", "src": 3}, {"op": "alld", "src": 3}]},
+    # call, edit (a leaf is appended), stale answers, half refresh, full refresh
+    {"segs": [{"id": 0, "par": None, "prox": ["0", "0", "0", "2"], "dist": ["3", "4", "0", "2"]},
+              {"id": 1, "par": [0, "1/2"], "prox": None, "dist": ["3/2", "2", "6", "1"]}],
+     "ops": [{"op": "tips"},
+             {"op": "edit", "segs": [{"id": 0, "par": None, "prox": ["0", "0", "0", "2"], "dist": ["3", "4", "0", "2"]},
+                                     {"id": 1, "par": [0, "1/2"], "prox": None, "dist": ["3/2", "2", "6", "1"]},
+                                     {"id": 5, "par": [1, "1"], "prox": ["3/2", "2", "6", "1"], "dist": ["7/2", "3", "8", "1"]}]},
+             {"op": "tips"}, {"op": "graph"}, {"op": "tips"}, {"op": "adj"}, {"op": "tips"}, {"op": "graph"}, {"op": "tips"},
+             {"op": "dist", "dst": 5}, {"op": "branch"}]},
+]
 
 
 # ------------------------------------------------------------------ generators
@@ -742,18 +1195,33 @@ def run(ctx):
         rest = space_size(maxn, 4)
         k = min(rest, 1600 * ctx.search_mult)
         want = set(rng.sample(range(rest), k))
-        for idx, (par, nb, opts) in enumerate(exhaustive_space(maxn, 4)):
-            if idx in want:
-                batch.append(build_case(par, nb, opts, rng))
-        check_cases(ctx, batch, stream="exhaustive-sample")
+        specs = [spec for idx, spec in enumerate(exhaustive_space(maxn, 4)) if idx in want]
+        if ctx.search_mult > 1:
+            # an obligation is broken: ten times the budget, spread over worker processes
+            check_cases(ctx, batch, stream="exhaustive-sample")
+            jobs = [(specs[i:i + 2000], rng.getrandbits(40)) for i in range(0, len(specs), 2000)]
+            run_parallel(ctx, _exh_worker, jobs, min(procs, 4))
+        else:
+            batch += [build_case(par, nb, opts, rng) for par, nb, opts in specs]
+            check_cases(ctx, batch, stream="exhaustive-sample")
         ctx.extra["exhaustive"] = False
     # ---- random trees up to 200 segments
     if ctx.tier == "thorough":
         nrand = 4000 * ctx.search_mult
         run_parallel(ctx, _rand_worker, [(250, rng.getrandbits(40)) for _ in range(nrand // 250)], procs)
+    elif ctx.search_mult > 1:
+        run_parallel(ctx, _rand_worker, [(250, rng.getrandbits(40)) for _ in range(ctx.search_mult)], min(procs, 4))
     else:
-        cases = [random_case(rng, 200 if i % 4 == 0 else 40) for i in range(250 * ctx.search_mult)]
+        cases = [random_case(rng, 200 if i % 4 == 0 else 40) for i in range(250)]
         check_cases(ctx, cases, stream="random")
+    # ---- call histories on one cell object (second call, priming, edits, refresh)
+    merge(ctx, eval_hist_batch([json.loads(json.dumps(c)) for c in HIST_CORPUS]))
+    if ctx.tier == "thorough":
+        run_parallel(ctx, _hist_worker, [(250, rng.getrandbits(40)) for _ in range(12 * ctx.search_mult)], procs)
+    elif ctx.search_mult > 1:
+        run_parallel(ctx, _hist_worker, [(400, rng.getrandbits(40)) for _ in range(ctx.search_mult)], min(procs, 4))
+    else:
+        merge(ctx, eval_hist_batch([history_case(rng) for _ in range(400)]))
     stale_cache_stream(ctx, rng, 5)
     for c in [random_case(rng, 12), CORPUS[0]]:
         ctx.sample({"segs": c["segs"][:8], "n_segments": len(c["segs"])})
@@ -769,12 +1237,33 @@ def light_queries(case, rng):
     sub = [i for i in idl if rng.random() < 0.5]
     case["groups"] = [list(idl), sub]
     case["loc"] = [idl[-1]]
+    case["variants"] = rng.random() < 0.1
+
+
+def regenerate(ctx):
+    """translator step: the graph / tree-metric methods of Cell in the CURRENT working tree (helper_methods.py AND
+    nml.py) -> lean/NmlVerif/Gen/Morph.lean (Props/C13Gen.lean proves it equal to the hand model); and C12's
+    translation of get_actual_proximal / get_segment_length -> Gen/Geom.lean, which Props/C13Geom.lean builds on"""
+    tdir = os.path.join(fw.VERIF, "translators")
+    if tdir not in sys.path:
+        sys.path.insert(0, tdir)
+    import py2lean_morph
+    import py2lean_geom
+    gaps = list(py2lean_morph.regenerate(fw.REPO, os.path.join(fw.LEAN, "NmlVerif", "Gen", "Morph.lean")))
+    gaps += [g for g in py2lean_geom.regenerate(fw.REPO, os.path.join(fw.LEAN, "NmlVerif", "Gen", "Geom.lean"))
+             if "get_actual_proximal" in g or "get_segment_length" in g or "distance_to" in g or "Segment.length" in g]
+    return gaps
 
 
 def replay(ctx, payload):
     c = payload.get("case", payload)
     case = c["case"] if isinstance(c, dict) and "case" in c else c
-    check_cases(ctx, [case], stream="replay")
+    if isinstance(case, dict) and "case" in case and "step" in case:
+        case = case["case"]
+    if "ops" in case:
+        merge(ctx, eval_hist_batch([case]))
+    else:
+        check_cases(ctx, [case], stream="replay")
     known = fw.known_findings(ctx.pid)
     new = [f for f in ctx.failures if f["key"] not in known]
     return {"fails": bool(new or ctx.corr_disagreements), "failures": new,
